@@ -19,6 +19,7 @@ import Jb.Proofs.Total
 import Jb.Proofs.SynthTotal
 import Jb.Proofs.Supported
 import Jb.Proofs.EngineWFb
+import Jb.Proofs.VoiceSetCompat
 
 set_option linter.unusedSectionVars false
 
@@ -188,5 +189,22 @@ theorem wf_check_sound (fx : Fix) (c : Condition K) (inp : EngineIn K) (h : engi
     ∃ durs w, engineDurations c b inp = .ok durs ∧ durs.length = inp.duration.length ∧ (∀ x ∈ durs, 1 ≤ x) ∧
       engineSynthesize fx c b inp = .ok w ∧ w.length = c.fperiod * durs.sum :=
   engineWFb_total fx c inp h b
+
+/-- **C01 from the voice files, with the library's own compatibility check.** As `bytes_to_waveform_total`, the
+    `compatibleVoice` hypothesis replaced by "the model of `VoiceSet::new` (C19: `voiceSetNew` on the voices' metadata)
+    accepted the list": accepted by the reader ∧ supported ∧ combined by `VoiceSet::new` ⇒ total and frame-exact. -/
+theorem bytes_to_waveform_total_via_voice_set [FromFile K] (fx : Fix) (big : K) (voices : List Hts.ParsedVoice)
+    (v0 : Hts.ParsedVoice) (hv0 : voices.head? = some v0) (iw : IW K)
+    (hall : ∀ v ∈ voices, (∃ bytes, Hts.parseVoice true bytes = .ok v) ∧ Hts.supportedVoice v = true)
+    (hvs : voiceSetNew (voices.map Hts.metaOf) = Except.ok ())
+    (hw : Synth.WeightsWF voices.length v0.global.nstreams iw) (ops : List (CondOp K)) (f : Condition K → Bool)
+    (labels : List (List Char)) (times : List (K × K))
+    (halign : (Synth.condOf (K := K) v0 ops).alignment = true → times.length = labels.length) :
+    ∃ (durs : List Nat) (w : List K), Synth.synthesize fx big voices iw ops f labels times = .ok w ∧
+      w.length = (Synth.condOf (K := K) v0 ops).fperiod * durs.sum ∧
+      labels.length * v0.global.nstates ≤ durs.sum ∧ (∀ d ∈ durs, 1 ≤ d) :=
+  Synth.bytes_synth_total fx big voices v0 hv0 iw
+    (fun v hv => ⟨(hall v hv).1, (hall v hv).2, Hts.voiceSetNew_compatible voices v0 hv0 hvs v hv⟩)
+    hw ops f labels times halign
 
 end Jb.C01
